@@ -49,6 +49,9 @@ struct Slot {
     running: Option<u64>,
     gate: Arc<Semaphore>,
     fail: Arc<Mutex<bool>>,
+    /// post_stop of this actor blocks on `stop_gate` when `stop_gated` is set
+    stop_gate: Arc<Semaphore>,
+    stop_gated: Arc<Mutex<bool>>,
 }
 
 #[derive(Default)]
@@ -72,6 +75,8 @@ struct WState {
     factory: ActorRef<FactoryMessage<Key, Msg>>,
     gate: Arc<Semaphore>,
     fail: Arc<Mutex<bool>>,
+    stop_gate: Arc<Semaphore>,
+    stop_gated: Arc<Mutex<bool>>,
 }
 
 impl Actor for HWorker {
@@ -86,11 +91,32 @@ impl Actor for HWorker {
     ) -> Result<Self::State, ActorProcessingErr> {
         let gate = Arc::new(Semaphore::new(0));
         let fail = Arc::new(Mutex::new(false));
+        let stop_gate = Arc::new(Semaphore::new(0));
+        let stop_gated = Arc::new(Mutex::new(false));
         self.sh.lock().unwrap().slots.insert(
             args.wid,
-            Slot { actor: myself, running: None, gate: gate.clone(), fail: fail.clone() },
+            Slot {
+                actor: myself,
+                running: None,
+                gate: gate.clone(),
+                fail: fail.clone(),
+                stop_gate: stop_gate.clone(),
+                stop_gated: stop_gated.clone(),
+            },
         );
-        Ok(WState { wid: args.wid, factory: args.factory, gate, fail })
+        Ok(WState { wid: args.wid, factory: args.factory, gate, fail, stop_gate, stop_gated })
+    }
+
+    async fn post_stop(
+        &self,
+        _myself: ActorRef<Self::Msg>,
+        state: &mut Self::State,
+    ) -> Result<(), ActorProcessingErr> {
+        let gated = *state.stop_gated.lock().unwrap();
+        if gated {
+            state.stop_gate.acquire().await.expect("stop gate").forget();
+        }
+        Ok(())
     }
 
     async fn handle(
@@ -265,6 +291,24 @@ where
                         *s.fail.lock().unwrap() = false;
                         s.gate.add_permits(1);
                     }
+                }
+            }
+            "stopw" => {
+                // user code stops the worker actor of slot w; its post_stop is slow (gated)
+                let w: usize = op[1].parse().unwrap();
+                let g = sh.lock().unwrap();
+                if let Some(s) = g.slots.get(&w) {
+                    if s.actor.get_status() == ActorStatus::Running {
+                        *s.stop_gated.lock().unwrap() = true;
+                        s.actor.stop(None);
+                    }
+                }
+            }
+            "openstop" => {
+                let w: usize = op[1].parse().unwrap();
+                let g = sh.lock().unwrap();
+                if let Some(s) = g.slots.get(&w) {
+                    s.stop_gate.add_permits(1);
                 }
             }
             "kill" => {
